@@ -4,6 +4,7 @@ import (
 	"fmt"
 	"math/big"
 	"sort"
+	"strings"
 
 	"golang.org/x/tools/go/ssa"
 )
@@ -186,7 +187,7 @@ func (c *Checker) reportS0(rule string, fk *fixedKernel) bool {
 // depthInvariant checks the premise the numeric rules rest on: the bit depth (and channel count) of an existing
 // buffer is never written, so it stays the value Alloc derived from the element type (Slice copies it).
 func depthInvariant(c *Checker, rule string) {
-	c.rule(rule, "premise: no function writes the bitDepth or channels field of an existing buffer (set by Alloc, copied by Slice), so a buffer's depth is the depth of its element type", 1)
+	c.rule(rule, "premise: no function writes the bitDepth or channels field of an existing buffer, and every header that is built gets its depth from getBitDepth (8*sizeof(T)) or from another header, so a buffer's depth is the depth of its element type", 2)
 	ok := true
 	detail := ""
 	n := 0
@@ -212,6 +213,60 @@ func depthInvariant(c *Checker, rule string) {
 		}
 	}
 	c.expect(ok, rule, "package/header-fields", "", fmt.Sprintf("%d functions: bitDepth and channels of existing buffers are never written", n), detail)
+	// every header built anywhere gets its depth from the element type (getBitDepth) or from another header
+	okF, dF, nF := true, "", 0
+	for _, fn := range c.entryFunctions() {
+		s := c.Summary(fn)
+		for _, o := range s.Outcomes {
+			if o.Kind != ORet {
+				continue
+			}
+			for ob, v := range o.St.mem {
+				if ob.Kind != OFresh || !isBufferType(ob.Typ) {
+					continue
+				}
+				fi := bufferFields(ob.Typ)
+				sv, isS := v.(StructV)
+				if fi == nil || !isS || fi.bitDepth >= len(sv.F) {
+					okF, dF = false, fmt.Sprintf("%s builds a buffer header that cannot be resolved", shortFn(c.W, fn))
+					continue
+				}
+				nF++
+				t := valTerm(sv.F[fi.bitDepth])
+				good := false
+				if t != nil {
+					ct := canon(t)
+					switch {
+					case ct.Op == OpAtom && strings.HasSuffix(ct.Name, ".bitDepth"):
+						good = true
+					default:
+						if mn, mx, ok := sizeofRange(normInt(ct)); ok && mn.Sign() > 0 && mx.Cmp(big.NewInt(128)) <= 0 && !ct.IsConst() {
+							good = normInt(ct).Equal(polyAtom(sizeofAtomOf(ct)).Scale(big.NewInt(8)))
+						}
+					}
+				}
+				if !good {
+					okF, dF = false, fmt.Sprintf("%s builds a buffer header whose bit depth is %s (neither getBitDepth's 8*sizeof(T) nor a copy of another header's) at %s", shortFn(c.W, fn), pretty(canonOrNil(t)), c.pos(ob.Pos))
+				}
+			}
+		}
+	}
+	c.expect(okF, rule, "package/fresh-headers", "", fmt.Sprintf("%d header constructions take the depth from the element type or from another header", nF), dF)
+}
+
+// sizeofAtomOf returns the first sizeof(T) atom of a term (or a dummy atom).
+func sizeofAtomOf(t *Term) *Term {
+	var a *Term
+	t.walk(func(x *Term) bool {
+		if a == nil && x.Op == OpAtom && strings.HasPrefix(x.Name, "sizeof(") {
+			a = x
+		}
+		return a == nil
+	})
+	if a == nil {
+		return mkAtom("sizeof(?)", intT)
+	}
+	return a
 }
 
 func checkC06(c *Checker) {
